@@ -714,10 +714,10 @@ theorem ssFinish_spec (cfg : EulerCfg) (c c' : Content) (prev last : Rat × List
     rw [← h.2] at hsegs
     cases hsegs
 
-theorem ssRun_spec (cfg : EulerCfg) (c c' : Content) (r : Option (List Seg))
-    (h : ssRun cfg c = .ok (c', r)) :
+theorem ssRunCore_spec (cfg : EulerCfg) (c c' : Content) (r : Option (List Seg))
+    (h : ssRunCore cfg c = .ok (c', r)) :
     c' = c ∧ ∀ segs, r = some segs → ∃ p last, snapshot c = .ok p ∧ segs = [{ rows := [last], pars := p }] := by
-  unfold ssRun at h
+  unfold ssRunCore at h
   obtain ⟨ig, _, h⟩ := exc_bind_ok h
   by_cases hf : ig.fail = true
   · simp only [hf, if_true, pure, Except.pure, Except.ok.injEq, Prod.mk.injEq] at h
@@ -733,6 +733,17 @@ theorem ssRun_spec (cfg : EulerCfg) (c c' : Content) (r : Option (List Seg))
     intro segs hs
     obtain ⟨p, hp, hseg⟩ := h2 segs hs
     exact ⟨p, last, hp, hseg⟩
+
+theorem ssRun_spec (cfg : EulerCfg) (c c' : Content) (r : Option (List Seg))
+    (h : ssRun cfg c = .ok (c', r)) :
+    c' = c ∧ ∀ segs, r = some segs → ∃ p last, snapshot c = .ok p ∧ segs = [{ rows := [last], pars := p }] := by
+  unfold ssRun at h
+  split at h
+  · cases h
+  · split at h
+    · cases h
+    · cases h
+    · exact ssRunCore_spec cfg c c' r h
 
 theorem ssRun_shape (cfg : EulerCfg) (c c' : Content) (segs : List Seg)
     (h : ssRun cfg c = .ok (c', some segs)) :
